@@ -142,6 +142,12 @@ def main():
             traceback.print_exc()
             notes.append(f"standing search crashed: {type(e).__name__}: {e}")
 
+    # 4c. a broken obligation or tie that the search did not explain with a NEW failing input stays a violation:
+    #     inputs already recorded as known findings do not explain it
+    if (broken or corr_broken) and not any(not (known.get(v["key"]) and known[v["key"]]["status"] == "known") for v in violations):
+        violations.append({"key": f"{prop}/unproved", "what": "proof obligation or correspondence no longer checks", "found_input": False,
+                           "replay": {"kind": "broken-obligation", "broken_theorems": broken, "broken_correspondence": corr_broken}})
+
     # 5. known findings / report
     n_viol = 0
     seen = set()
